@@ -20,6 +20,7 @@ if ROOT not in sys.path:
 # property id -> spec modules contributing units
 SPEC_MODULES = {
     "C09": ["specs.c09_lock"],
+    "C10": ["specs.c10_semaphore", "specs.c10_limiter"],
 }
 
 
